@@ -1,9 +1,68 @@
-(* Lemmas_LeafCt.v — rdsparser_ct_init, translated from the C sources on every run (GenLeaf.v), is the
-   model's ct_init for all parameter values of the C types. *)
-Require Export Lemmas_Leaf.
+(* Lemmas_Leaf_C12.v — the four 4A field extractors, rdsparser_ct_init and the six rdsparser_ct_get_*: the C functions, translated on every run (GenLeaf.v), equal the functions of
+   the model for every 16-bit block value (kernel sweep over all 65536 values: any equivalent
+   rewrite of the C code still passes, any other has a concrete failing value). *)
+Require Export Lemmas_LeafBase.
 Require Import ZifyBool.
 Local Open Scope Z_scope.
+
 Ltac Zify.zify_post_hook ::= Z.div_mod_to_equations.
+
+Definition leaf_C12_ok (x : Z) : bool :=
+  (c_get_minute 0 0 0 x =? get_minute x) && (c_get_offset 0 0 0 x =? get_offset x).
+Lemma leaf_C12_sweep : all_from (Z.to_nat 65536) 0 leaf_C12_ok = true.
+Proof. vm_compute. reflexivity. Qed.
+
+Lemma leaf_get_minute d0 d1 d2 d3 : 0 <= d3 < 65536 -> c_get_minute d0 d1 d2 d3 = get_minute d3.
+Proof.
+  intros H. pose proof (sweep16 _ leaf_C12_sweep d3 H) as S. unfold leaf_C12_ok in S. split_andb S.
+  change (c_get_minute d0 d1 d2 d3) with (c_get_minute 0 0 0 d3). lia.
+Qed.
+Lemma leaf_get_offset d0 d1 d2 d3 : 0 <= d3 < 65536 -> c_get_offset d0 d1 d2 d3 = get_offset d3.
+Proof.
+  intros H. pose proof (sweep16 _ leaf_C12_sweep d3 H) as S. unfold leaf_C12_ok in S. split_andb S.
+  change (c_get_offset d0 d1 d2 d3) with (c_get_offset 0 0 0 d3). lia.
+Qed.
+
+(* ---------- two blocks: MJD (B, C) and hour (C, D) ---------- *)
+Definition leaf_mjd_ok (c : Z) : bool :=
+  (c_get_mjd 0 0 c 0 =? get_mjd 0 c) && (c_get_mjd 0 1 c 0 =? get_mjd 1 c)
+  && (c_get_mjd 0 2 c 0 =? get_mjd 2 c) && (c_get_mjd 0 3 c 0 =? get_mjd 3 c).
+Lemma leaf_mjd_sweep : all_from (Z.to_nat 65536) 0 leaf_mjd_ok = true.
+Proof. vm_compute. reflexivity. Qed.
+Definition leaf_hour_ok (d : Z) : bool :=
+  (c_get_hour 0 0 0 d =? get_hour 0 d) && (c_get_hour 0 0 1 d =? get_hour 1 d).
+Lemma leaf_hour_sweep : all_from (Z.to_nat 65536) 0 leaf_hour_ok = true.
+Proof. vm_compute. reflexivity. Qed.
+
+Lemma leaf_get_mjd d0 d1 d2 d3 : 0 <= d1 < 65536 -> 0 <= d2 < 65536 ->
+  c_get_mjd d0 d1 d2 d3 = get_mjd d1 d2.
+Proof.
+  intros H1 H2.
+  (* both sides read block B only through B & 3 *)
+  assert (E1 : c_get_mjd d0 d1 d2 d3 = c_get_mjd 0 (Z.land d1 3) d2 0)
+    by (unfold c_get_mjd; rewrite land_idem; reflexivity).
+  assert (E2 : get_mjd d1 d2 = get_mjd (Z.land d1 3) d2)
+    by (unfold get_mjd; rewrite land_idem; reflexivity).
+  rewrite E1, E2.
+  pose proof (sweep16 _ leaf_mjd_sweep d2 H2) as S.
+  unfold leaf_mjd_ok in S. split_andb S.
+  destruct (land3_cases d1 ltac:(lia)) as [K|[K|[K|K]]]; rewrite K; apply Z.eqb_eq; assumption.
+Qed.
+
+Lemma leaf_get_hour d0 d1 d2 d3 : 0 <= d2 < 65536 -> 0 <= d3 < 65536 ->
+  c_get_hour d0 d1 d2 d3 = get_hour d2 d3.
+Proof.
+  intros H2 H3.
+  assert (E1 : c_get_hour d0 d1 d2 d3 = c_get_hour 0 0 (Z.land d2 1) d3)
+    by (unfold c_get_hour; rewrite land_idem; reflexivity).
+  assert (E2 : get_hour d2 d3 = get_hour (Z.land d2 1) d3)
+    by (unfold get_hour; rewrite land_idem; reflexivity).
+  rewrite E1, E2.
+  pose proof (sweep16 _ leaf_hour_sweep d3 H3) as S.
+  unfold leaf_hour_ok in S. split_andb S.
+  destruct (land1_cases d2 ltac:(lia)) as [K|K]; rewrite K; apply Z.eqb_eq; assumption.
+Qed.
+
 
 (* ---------- clock time: rdsparser_ct_init and the six rdsparser_ct_get_* ---------- *)
 Lemma to_s32w_eq x : 0 <= x < 4294967296 -> to_s32w x = to_s32 x.
